@@ -163,35 +163,54 @@ mode_t vf_umask(mode_t m) { return 022; }
 int vf_chdir(const char *d) { return 0; }
 time_t vf_time(time_t *t) { return 820458334; }
 
+/* the -owner / -owner-default probes (dot-qmail(5)): whether they are made with stat() or by opening the file is the
+ * program's business; the order and the names are not */
+static int owner_probe(const char *path)
+{
+  int k;
+  CHECK(OWNER, "no look-up of anything but the home directory and the candidates with an empty sender");
+  CHECK(owner_exists == -1 || (owner_exists == 1 && ownerdefault_exists == -1), "C13: -owner is looked up once, -owner-default only if it exists");
+  if (owner_exists == -1) {
+    check_path(path, 1);
+    k = lookup(path);
+    owner_exists = k >= 0;
+  } else {
+    check_path(path, 2);
+    k = lookup(path);
+    ownerdefault_exists = k >= 0;
+  }
+  return k;
+}
+
+static int control_opened;              /* a candidate was opened successfully: the search is over */
+
 int vf_stat(const char *path, struct stat *st)
 {
+  int k;
   if (path[0] == '.' && path[1] == 0) {
     home_statted = 1;
     st->st_mode = S_IFDIR | (home_mode & 07777);
     return 0;
   }
-  CHECK(OWNER, "no stat of anything but the home directory with an empty sender");
-  CHECK(owner_exists == -1 || (owner_exists == 1 && ownerdefault_exists == -1), "C13: -owner is looked up once, -owner-default only if it exists");
-  if (owner_exists == -1) {
-    check_path(path, 1);
-    owner_exists = lookup(path) >= 0;
-    if (!owner_exists) { errno = ENOENT; return -1; }
-  } else {
-    check_path(path, 2);
-    ownerdefault_exists = lookup(path) >= 0;
-    if (!ownerdefault_exists) { errno = ENOENT; return -1; }
-  }
-  st->st_mode = S_IFREG | 0600;
+  k = owner_probe(path);
+  if (k < 0) { errno = ENOENT; return -1; }
+  st->st_mode = S_IFREG | (fperm[k] & 0777);
   return 0;
 }
 
 int vf_open(const char *path, int flags, ...)
 {
   int k;
-  check_path(path, 0);
   CHECK((flags & O_ACCMODE) == O_RDONLY, ".qmail files are opened for reading");
+  if (OWNER && control_opened) {
+    k = owner_probe(path);
+    if (k < 0) { errno = ENOENT; return -1; }
+    return 10 + k;
+  }
+  check_path(path, 0);
   k = lookup(path);
   if (k < 0) { errno = ENOENT; return -1; }
+  control_opened = 1;
   return 10 + k;
 }
 
